@@ -167,7 +167,8 @@ def subscribeSource (w : TW) : TW :=
        | .create _ => { w1 with srcAlive := !Rx.terminated s.emit }
        | _ => w1)
   | .interval delay period =>
-      let (s1, h) := w.sched.scheduleRepeat .tick period delay
+      -- after `fix: interval_at first tick`: first tick after `delay`, no outer delay
+      let (s1, h) := w.sched.scheduleRepeat .tick period none (delay.getD period)
       { w with sched := s1, srcTask := some h }
   | .timer v dur =>
       let (s1, h) := w.sched.scheduleOnce (.timerSrc v) (some dur)
